@@ -103,7 +103,7 @@ def build(rng, thorough):
             ranges = [('', None, None)]
             if RC.EXP not in t.flags and RC.BCD not in t.flags and RC.HCD not in t.flags and dv == '' and t.div == 1:
                 if RC.SIG in t.flags:
-                    ranges += [('-5-10', -5, 10), ('-100--3', -100, -3)]
+                    ranges += [('-5-10', -5, 10), ('-100--3', -100, -3), ('1-3', 1, 3), ('0-100', 0, 100)]
                 else:
                     ranges += [('1-3', 1, 3), ('10-200', 10, 200)]
             for rs, rmin, rmax in ranges:
@@ -113,7 +113,7 @@ def build(rng, thorough):
     for tid in ('UCH', 'UIN', 'ULG', 'SCH'):
         vals = {0: 'off', 1: 'on', 5: 'five', 100: 'hundred'}
         dv = ';'.join('%d=%s' % kv for kv in vals.items())
-        texts = ['off', 'on', 'five', 'hundred', 'OFF', 'of', 'offf', '', '-', '0', '1', '5', '100', '2', '6', '99', '101', '255', '256', '257',
+        texts = ['off', 'on', 'five', 'hundred', 'OFF', 'of', 'offf', 'o', 'On', 'fiv', 'fivefive', 'hundred ', 'on_demand', '', '-', '0', '1', '5', '100', '2', '6', '99', '101', '255', '256', '257',
                  '65536', '65537', '65541', '4294967296', '4294967297', '4294967301', '4294967396', '18446744073709551617', '-1', '-4294967295',
                  '1.5', '1x', ' 1', '0x1', '1e0', '05']
         jobs.append(Job(tid, dv, texts=texts, meta={'kind': 'list', 'tid': tid, 'vals': vals}))
